@@ -270,7 +270,7 @@ func c10servertimeouts(c *an.Ctx) {
 	n := 0
 	var bad []string
 	var pos token.Pos
-	an.Instrs(fn, func(in ssa.Instruction) {
+	scan := func(in ssa.Instruction) {
 		st, ok := in.(*ssa.Store)
 		if !ok {
 			return
@@ -294,7 +294,11 @@ func c10servertimeouts(c *an.Ctx) {
 			bad = append(bad, f.Name())
 			pos = st.Pos()
 		}
-	})
+	}
+	// the server may be built by a helper of the package
+	for _, g := range c.P.PkgFuncs("internal/http_api") {
+		an.Instrs(g, scan)
+	}
 	c.Check(n >= 1 && len(bad) == 0, fn, "no server-side timeouts", pos, "", "http_api.Serve sets http.Server."+strings.Join(bad, ", ")+": the server is shared by nsqd, nsqlookupd and nsqadmin, and a read/write timeout cuts off a complete, valid /pub or /mpub whose body arrives slowly – answered 500 with nothing enqueued, where TCP PUB has no such limit")
 }
 
